@@ -1,7 +1,9 @@
 #!/bin/sh
-# MANIFEST.setup_cmd: build the Lean project from files on disk only (offline).
+# MANIFEST.setup_cmd: build the Lean project from files on disk only (offline): the driver and every property file.
 set -e
 cd "$(dirname "$0")/.."
 PYTHONDONTWRITEBYTECODE=1 /venv/bin/python harness/translate.py
 cd lean
 lake build
+MODS=$(ls SageoptModel/Props/*.lean | sed 's|/|.|g; s|\.lean$||')
+lake build $MODS
